@@ -342,7 +342,7 @@ class foreach(object):
                 
                 if aname in fm.type_t.field_id_m.keys():
                     idx = fm.type_t.field_id_m[aname]
-                    ret = expr(ExprIndexedFieldRefModel(em, [idx]))
+                    ret = expr(ExprIndexedFieldRefModel(em, [idx], [aname]))
                 else:
                     raise Exception("Type %s does not contain a field \"%s\"" % (
                         fm.type_t.name, aname))
